@@ -222,7 +222,23 @@ impl<Rounds: Unsigned + Default> NewCipher for ChaChaAny<U24, Rounds, X> {
 impl<NonceSize: Unsigned, Rounds, IsX> StreamCipherSeek for ChaChaAny<NonceSize, Rounds, IsX> {
     #[inline]
     fn try_current_pos<T: SeekNum>(&self) -> Result<T, OverflowError> {
-        unimplemented!()
+        let buf = &self.state;
+        let total = if NonceSize::U32 == 12 {
+            SMALL_LEN
+        } else {
+            if buf.len == 0 && !buf.fresh {
+                // all 2^64 blocks have been produced
+                return Err(OverflowError);
+            }
+            BIG_LEN
+        };
+        // Blocks produced so far; a block lazily pending after a mid-block seek is not counted yet.
+        let blocks = total.wrapping_sub(buf.len);
+        if buf.have > 0 {
+            T::from_block_byte(blocks - 1, (BLOCK as i8 - buf.have) as u8, BLOCK as u8)
+        } else {
+            T::from_block_byte(blocks, (-buf.have) as u8, BLOCK as u8)
+        }
     }
     #[inline(always)]
     fn try_seek<T: SeekNum>(&mut self, pos: T) -> Result<(), LoopError> {
